@@ -5,6 +5,8 @@ import PlasVerif.Driver.C18
 import PlasVerif.Driver.C09
 import PlasVerif.Driver.C08
 import PlasVerif.Driver.C15
+import PlasVerif.Driver.C07
+import PlasVerif.Driver.C16
 /-!
 Line-protocol driver: one request per line `<property> <stream> <payload…>`, one
 answer per line `<model output>\t<spec output or ->[\t<aux>]`.  Imports only `Model`,
@@ -22,6 +24,8 @@ def dispatch (line : String) : String :=
   | "C09" :: r => C09.handle r
   | "C08" :: r => C08.handle r
   | "C15" :: r => C15.handle r
+  | "C07" :: r => C07.handle r
+  | "C16" :: r => C16.handle r
   | _ => "bad-op"
 
 partial def loop (h : IO.FS.Stream) (out : IO.FS.Stream) : IO Unit := do
